@@ -214,4 +214,58 @@ def Net.NowChecked (cfg : Cfg) (n : Net) : Prop :=
   ∀ l ∈ n.links, (n.chan l.r).strict = true →
     ∀ hs hr, (n.chan l.s).hint = some hs → (n.chan l.r).hint = some hr → compare cfg hs hr = some true
 
+/-! ## chains of value receivers (macro input → child input → grandchild input …) -/
+
+/-- the value receiver of channel `i`, if it has one -/
+def Net.recvOf (n : Net) (i : Nat) : Option Nat :=
+  (n.links.find? fun l => !l.via.isConnection && l.s == i).map (·.r)
+
+/-- `channel.value = v` all the way down: the channel checks the value itself, hands it to its value receiver
+(which does the same), and only then stores it; a `TypeError` anywhere below (`none`) leaves everything as it was -/
+def Net.deliver (cfg : Cfg) (n : Net) : Nat → Nat → V → Option Net
+  | 0, _, _ => none
+  | fuel + 1, i, v =>
+    if !typeCheckOk cfg (n.chan i) v then none
+    else
+      match n.recvOf i with
+      | none => some { n with val := updN n.val i (some v) }
+      | some j =>
+        match n.deliver cfg fuel j v with
+        | none => none
+        | some n' => some { n' with val := updN n'.val i (some v) }
+
+/-- like `push`, but the value travels on through the value receivers of the receiving (and of the sending) channel -/
+def Net.pushDeep (cfg : Cfg) (n : Net) (via : Via) (s r : Nat) (v : V) : Net × Outcome :=
+  let fuel := n.links.length + 1
+  if !n.hasLink via s r then (n, .noLink)
+  else if via.isConnection then
+    match n.deliver cfg fuel s v with
+    | none => (n, .senderRejects)
+    | some n1 =>
+      match n1.deliver cfg fuel r v with
+      | none => (n1, .receiverRejects)
+      | some n2 => (n2, .ok)
+  else if !typeCheckOk cfg (n.chan s) v then (n, .senderRejects)
+  else
+    match n.deliver cfg fuel s v with
+    | none => (n, .receiverRejects)
+    | some n2 => (n2, .ok)
+
+/-- the channel at the END of the chain of value receivers below `i` ("where the data ends up being used") -/
+def Net.consumer (n : Net) : Nat → Nat → Nat
+  | 0, i => i
+  | fuel + 1, i => match n.recvOf i with
+    | none => i
+    | some j => n.consumer fuel j
+
+/-- a gate that holds a connection to the hint and flag of the END of the receiver's chain instead of the
+receiver's own (NOT what the tree does) -/
+def Net.gateEnd (cfg : Cfg) (n : Net) (via : Via) (s r : Nat) : Option Bool :=
+  gate cfg via (n.chan s) (n.chan (n.consumer (n.links.length + 1) r))
+
+/-- a walk along links that strict receivers accepted -/
+def Net.Walk (n : Net) : Nat → List Link → Nat → Prop
+  | i, [], j => i = j
+  | i, l :: ls, j => l ∈ n.links ∧ l.strictAtAccept = true ∧ l.s = i ∧ n.Walk l.r ls j
+
 end PwVerif.Hint
